@@ -375,6 +375,31 @@ impl Sys {
         v
     }
 
+    /// `pr` with element `at` (0-based) replaced by a value that is no BytesN<32>: the element type of a host vector
+    /// is not checked when the vector is handed over, only when an element is read
+    fn proof_val_ill(&self, pr: &[H32], at: usize, kind: usize) -> SVec<BytesN<32>> {
+        use soroban_sdk::{IntoVal, TryFromVal, Val};
+        let e = &self.e;
+        let mut v: SVec<Val> = SVec::new(e);
+        for (k, x) in pr.iter().enumerate() {
+            if k == at {
+                let ill: Val = match kind % 4 {
+                    0 => Bytes::from_slice(e, &x[..31]).into_val(e),
+                    1 => 7u32.into_val(e),
+                    2 => { let mut b = x.to_vec(); b.push(0); Bytes::from_slice(e, &b).into_val(e) }
+                    _ => self.verifier.clone().into_val(e),
+                };
+                v.push_back(ill);
+            } else {
+                v.push_back(self.bn(x).into_val(e));
+            }
+        }
+        SVec::<BytesN<32>>::try_from_val(e, &v.to_val()).expect("vector handle")
+    }
+    fn proof_of(&self, pr: &[H32], corr: &str, ci: usize, cj: usize) -> SVec<BytesN<32>> {
+        if corr == "illtyped" && ci >= 1 && ci <= pr.len() { self.proof_val_ill(pr, ci - 1, cj) } else { self.proof_val(pr) }
+    }
+
     fn obs(&self) -> Value {
         let e = &self.e;
         no_auth(e);
@@ -430,6 +455,8 @@ fn corrupt(pr: &[H32], corr: &str, i: usize, j: usize, fresh: H32) -> Vec<H32> {
             v.remove(i - 1);
         }
         "extend" if i >= 1 && i <= n + 1 => v.insert(i - 1, if inr(j) { pr[j - 1] } else { fresh }),
+        // (the ill-typed element itself is put in by `proof_val_ill`)
+        "illtyped" if i >= 1 && i <= n + 1 => v.insert(i - 1, fresh),
         "interior" if inr(i) => v = pr[i..].to_vec(),
         _ => {}
     }
@@ -499,7 +526,7 @@ impl Sys {
                 } else {
                     hs.root(&style, &leaves)
                 };
-                let (pv, rv, lv) = (self.proof_val(&proof), self.bn(&root), self.bn(&leaf));
+                let (pv, rv, lv) = (self.proof_of(&proof, &corr, ci, cj), self.bn(&root), self.bn(&leaf));
                 let cl = verifier::VerifierCClient::new(&self.e, &self.verifier);
                 let r = match (self.hk, sorted) {
                     (Hk::Sha, true) => cl.try_verify_sha(&pv, &rv, &lv),
@@ -519,7 +546,7 @@ impl Sys {
                 let hs = self.hs();
                 let leaves = self.claim_leaves(salt, n);
                 let base = hs.proof(&style, &leaves, self.px(if corr == "other" { cj } else { pos }));
-                let pv = self.proof_val(&corrupt(&base, &corr, ci, cj, fresh));
+                let pv = self.proof_of(&corrupt(&base, &corr, ci, cj, fresh), &corr, ci, cj);
                 let index: u32 = self.ix(if corr == "index" { cj } else { pos });
                 let amount = amt(salt, pos as i64) + if corr == "leaf" { 1 } else { 0 };
                 let data = self.receiver(index, pos, amount);
@@ -657,9 +684,9 @@ fn main() {
                     let corr = if dup > 0 || r.gen_bool(0.45) {
                         "none"
                     } else if kind == "verify" {
-                        *pick(&mut r, &["leaf", "alter", "swap", "drop", "extend", "index", "root", "other", "interior"])
+                        *pick(&mut r, &["leaf", "alter", "swap", "drop", "extend", "index", "root", "other", "interior", "illtyped"])
                     } else {
-                        *pick(&mut r, &["leaf", "alter", "swap", "drop", "extend", "index", "other"])
+                        *pick(&mut r, &["leaf", "alter", "swap", "drop", "extend", "index", "other", "illtyped"])
                     };
                     let any = |r: &mut StdRng, hi: usize| if hi == 0 { 0 } else { r.gen_range(1..=hi) };
                     let (corr, i, j) = match corr {
@@ -671,6 +698,7 @@ fn main() {
                             (corr, i, j)
                         }
                         "extend" => (corr, any(&mut r, plen + 1), r.gen_range(0..=plen)),
+                        "illtyped" => (corr, any(&mut r, plen + 1), r.gen_range(0..4)),
                         "index" if mode == "p" || kind == "claim" => {
                             let hi = if kind == "claim" { U - 1 } else { (1usize << plen) + 1 };
                             let mut j = r.gen_range(0..=hi);
